@@ -4,10 +4,20 @@ oracle: the statement on OrsoTypes.<T>.parse's own outputs (null -> null, identi
 canonical text/bytes rendering -> value, longest prefix, arrays element-wise with nulls kept, decimals
 exact when they fit, result class);  correspondence: every in-domain (type, value) pair vs
 Model/Cast.lean;  parameter: float(repr(f)) == f, sampled >= 10^5 doubles per run.
+
+Round 2: every case is cast twice in one process (mutable results edited in place in between, order shuffled) and
+explicit sequences of casts are run (`sequence_cases`); a failure that depends on earlier casts is reduced, in fresh
+interpreters (harness/c07_worker.py), to the shortest reproducing sequence found: replay case {"seq": [step, ...]}.
 """
 import datetime
 import decimal
+import json
+import os
+import random
 import struct
+import subprocess
+import sys
+import time
 
 from .. import wire
 from ..core import InfraError, shrink
@@ -188,6 +198,8 @@ def class_ok(name, r):
 
 
 def run_impl(c):
+    if "column" in c:
+        return run_column(c)
     T = orso_type(c["ty"][0])
     v = py_val(c["val"])
     kw = kwargs_of(c["ty"])
@@ -200,6 +212,45 @@ def run_impl(c):
     except Exception as e:  # the statement allows a cast to raise
         return ("err", type(e).__name__)
     return ("ok", r)
+
+
+def run_column(c):
+    """Second call site: FlatColumn(default=...) casts the default through OrsoTypes.parse (schema.py:203-210)."""
+    from orso.schema import FlatColumn
+
+    try:
+        col = FlatColumn(name="c", type=c["column"], default=py_val(c["val"]))
+    except Exception as e:
+        return ("err", type(e).__name__)
+    return ("ok", col.default)
+
+
+run_step = run_impl
+
+
+def mutate_result(r):
+    """What a caller that owns the result may do with it: edit it in place (only mutable results change)."""
+    if isinstance(r, list):
+        # drop the nulls, reverse, repeat an element: elements keep their classes, the list always changes
+        keep = [x for x in r if x is not None]
+        r[:] = (keep[::-1] + [keep[0]]) if keep else (r + [None])
+        return True
+    if isinstance(r, dict):
+        r.clear()
+        r["<edited by the caller>"] = 1
+        return True
+    if isinstance(r, bytearray):
+        r.reverse()
+        r.extend(b"<edited>")
+        return True
+    return False
+
+
+def after_step(step, out):
+    """`"then": "edit"`: the caller edits the result it received before the next cast of the sequence."""
+    if step.get("then") == "edit" and out[0] == "ok":
+        return mutate_result(out[1])
+    return False
 
 
 # --------------------------------------------------------------------------- oracle
@@ -245,6 +296,40 @@ def oracle(c, out):
             return "%s: cast of %s raised %s" % (c["clause"], c["val"]["t"], out[1])
         if not equal_value(out[1], want) or (type(out[1]) is not type(want)):
             return "%s: got another value" % c["clause"]
+    if name == "ARRAY" and c["ty"][1] is not None and "column" not in c:
+        return elementwise(c, out)
+    return None
+
+
+def elementwise(c, out):
+    """`element-wise to the element type`, on the implementation's own outputs: the array cast is the list of the
+    element type's casts of the (JSON-decoded) elements, and raises when one of them raises."""
+    v = py_val(c["val"])
+    if isinstance(v, (str, bytes)):
+        import orjson
+
+        try:
+            elems = orjson.loads(v)
+        except Exception:
+            return None
+        if not isinstance(elems, list):
+            return None
+    elif isinstance(v, (list, tuple)):
+        elems = list(v)
+    else:
+        return None
+    per = []
+    for e in elems:
+        try:
+            per.append(run_impl({"ty": ty_of(c["ty"][1][0]), "val": tag(e)}))
+        except InfraError:
+            return None
+    if any(p_[0] == "err" for p_ in per):
+        return None if out[0] == "err" else "ARRAY cast returns although the cast of an element raises"
+    if out[0] != "ok":
+        return "ARRAY cast raises %s although every element casts" % out[1]
+    if not same(out[1], [p_[1] for p_ in per]):
+        return "ARRAY cast differs from the element type's cast of each element"
     return None
 
 
@@ -305,7 +390,9 @@ def model_ty(ty):
     return [ty[0]] + [x for x in ty[1:]]
 
 
-def evaluate(ctx, cases):
+def model_results(ctx, cases):
+    """Model verdict for every case inside the model's domain ({index: decoded driver answer}); also the
+    decimal rendering mirror (model vs Python, orso out of the picture)."""
     lines, slots = [], []
     for i, c in enumerate(cases):
         name = c["ty"][0]
@@ -364,43 +451,324 @@ def evaluate(ctx, cases):
         if not o.startswith("ok "):
             raise InfraError("model rejected case %r: %r" % (cases[i], o))
         mres[i] = wire.dec_all(o[3:])[0]
+    return mres
+
+
+def judge(c, out, m):
+    """One outcome of one cast against the statement (oracle) and, when given, the model's answer `m`.
+    -> None | ("fail", clause) | ("disagree", what)."""
+    clause = oracle(c, out)
+    if clause is not None:
+        return ("fail", clause)
+    if m is None:
+        return None
+    if m[0] == "err":
+        if out[0] != "err" or (out[1] != m[1] and not (c["ty"][0] == "ARRAY" and out[0] == "err")):
+            return ("disagree", "cast vs Cast.parse")
+        return None
+    if out[0] != "ok":
+        return ("disagree", "cast vs Cast.parse")
+    want = [unwire_val(x) for x in m[1]] if c["ty"][0] == "ARRAY" else unwire_val(m[1])
+    if not same(out[1], want):
+        return ("disagree", "cast vs Cast.parse")
+    return None
+
+
+def report_single(ctx, c, out, clause, m):
+    c_min = c
+    if not ctx.replaying:
+        def still(c2):
+            try:
+                if c2.get("ty") != c["ty"] or ("expect" in c) != ("expect" in c2) or c2.get("expect") != c.get("expect"):
+                    return False
+                return _norm(oracle(c2, run_impl(c2))) == _norm(clause)
+            except Exception:
+                return False
+        if "expect" not in c:
+            c_min = shrink(c, still, budget=150)
+        elif c["ty"][0] == "ARRAY":
+            c_min = shrink_array(c, clause)
+    o2 = run_impl(c_min)
+    ctx.fail(c_min, oracle(c_min, o2) or clause, impl=[o2[0], repr(o2[1])[:200]], model=m if c_min is c else None)
+
+
+def shrink_array(c, clause):
+    """Drop the same position from the array input (list / tuple / JSON text) and from the expected list while the same clause fails."""
+    import orjson
+
+    def parts(c_):
+        v, e = c_["val"], c_.get("expect")
+        if not (isinstance(e, dict) and e.get("t") == "list"):
+            return None
+        if v["t"] in ("list", "tuple"):
+            xs = v["v"]
+        else:
+            try:
+                xs = orjson.loads(v["v"])
+            except Exception:
+                return None
+        if not isinstance(xs, list) or len(xs) != len(e["v"]):
+            return None
+        return xs
+
+    def without(c_, i):
+        xs = parts(c_)
+        v = c_["val"]
+        ys = xs[:i] + xs[i + 1:]
+        if v["t"] in ("list", "tuple"):
+            nv = {"t": v["t"], "v": ys}
+        elif v["t"] == "str":
+            nv = {"t": "str", "v": orjson.dumps(ys).decode("utf-8")}
+        else:
+            nv = {"t": "bytes", "v": orjson.dumps(ys)}
+        return dict(c_, val=nv, expect={"t": "list", "v": c_["expect"]["v"][:i] + c_["expect"]["v"][i + 1:]})
+
+    cur, tries = c, 0
+    progress = True
+    while progress and tries < 120:
+        progress = False
+        xs = parts(cur)
+        if not xs or len(xs) <= 1:
+            break
+        for i in range(len(xs)):
+            tries += 1
+            try:
+                c2 = without(cur, i)
+                if _norm(oracle(c2, run_impl(c2))) == _norm(clause):
+                    cur, progress = c2, True
+                    break
+            except Exception:
+                continue
+    return cur
+
+
+# ----- what was cast before, in this process (for failures that depend on it)
+
+
+def hist(ctx):
+    if not hasattr(ctx, "_c07_hist"):
+        ctx._c07_hist = []
+    return ctx._c07_hist
+
+
+def plain_of(step):
+    return {k_: v_ for k_, v_ in step.items() if k_ not in ("then", "kind")}
+
+
+def is_known(ctx, c, clause):
+    from ..core import match_known
+
+    return any(k.get("status") == "open" and match_known(ctx.prop_id, k, c, {"clause": clause}) for k in ctx.known)
+
+
+def investigate(ctx, c, m, verdict, impl, upto, what, first=None):
+    """A cast was judged wrong in this process.  Decide, in fresh interpreters, whether it fails on its own
+    (-> an ordinary failing input) or only after earlier casts (-> the shortest reproducing sequence found:
+    candidates are `first` (the explicit sequence, if any), the earlier casts of the same value, of the same
+    type, and everything cast so far; steps are then dropped while the last one is still judged wrong)."""
+    kind, clause = verdict
+    c = plain_of(c)
+    n_inv = getattr(ctx, "_c07_investigations", 0)
+    seen = getattr(ctx, "_c07_seen", set())
+    key = (kind, _norm(clause))
+    if ctx.replaying or is_known(ctx, c, clause):
+        # replay / known finding: report as it is
+        if ctx.replaying and first is not None and len(first[0]) > 1:
+            return emit(ctx, first[0], first[1], kind, clause, impl, what, None)
+        return emit(ctx, [c], [m], kind, clause, impl, what, None)
+    if key in seen:
+        ctx.hit("violation-dup:" + clause if kind == "fail" else "disagreement-dup")
+        return None
+    if n_inv >= 4:
+        seen.add(key)
+        ctx._c07_seen = seen
+        return emit(ctx, [c], [m], kind, clause, impl, what, "one of more than four kinds of failure in this run: not examined in a fresh interpreter")
+    ctx._c07_investigations = n_inv + 1
+    seen.add(key)
+    ctx._c07_seen = seen
+    deadline = time.time() + 45
+    H = hist(ctx)[:upto]
+    cands = [([c], [m])]
+    if first is not None and len(first[0]) > 1:
+        cands.append(first)
+    sv = [(s_, m_) for (s_, m_) in H if s_["val"] == c["val"]]
+    st = [(s_, m_) for (s_, m_) in H if s_["ty"][0] == c["ty"][0]]
+    for grp in (sv, st, H):
+        if grp and (len(cands) == 0 or len(grp) + 1 != len(cands[-1][0])):
+            cands.append(([s_ for s_, _ in grp] + [c], [m_ for _, m_ in grp] + [m]))
+
+    def hit(ws):
+        """index of the first step judged wrong in the same way, or None"""
+        for w in ws:
+            if w[1] == kind and (kind != "fail" or _norm(w[2]) == _norm(clause)):
+                return w
+        return None
+
+    def last_hit(ws, n):
+        for w in ws:
+            if w[0] == n - 1 and w[1] == kind and (kind != "fail" or _norm(w[2]) == _norm(clause)):
+                return w
+        return None
+
+    for seq, ms in cands:
+        ws = fresh_verdict(seq, ms)
+        ctx.hit("fresh-interpreter-runs")
+        r = hit(ws)
+        if r is None:
+            continue
+        seq, ms = seq[: r[0] + 1], ms[: r[0] + 1]  # the first step that shows it
+        budget = 40
+        progress = True
+        while progress and budget > 0 and len(seq) > 1 and time.time() < deadline:
+            progress = False
+            n = len(seq) - 1
+            cuts = []
+            parts = 2
+            while parts <= min(n, 8):  # halves, quarters, eighths, then single steps (when few are left)
+                w = -(-n // parts)
+                cuts += [(lo, min(lo + w, n)) for lo in range(0, n, w)]
+                parts *= 2
+            if n <= 12:
+                cuts += [(k, k + 1) for k in range(n)]
+            tried = set()
+            for lo, hi in cuts:
+                if budget <= 0 or time.time() > deadline:
+                    break
+                if (lo, hi) in tried or hi - lo == n + 1:
+                    continue
+                tried.add((lo, hi))
+                s2, m2 = seq[:lo] + seq[hi:], ms[:lo] + ms[hi:]
+                budget -= 1
+                r2 = last_hit(fresh_verdict(s2, m2), len(s2))
+                ctx.hit("fresh-interpreter-runs")
+                if r2 is not None:
+                    seq, ms, r = s2, m2, r2
+                    progress = True
+                    break
+        return emit(ctx, seq, ms, kind, clause, r[3] if r[3] is not None else impl, what, None)
+    seq, ms = cands[-1]
+    return emit(ctx, seq if len(seq) <= 2000 else [c], ms if len(seq) <= 2000 else [m], kind, clause, impl, what,
+                "seen in the checking process; not reproduced in a fresh interpreter from the recorded casts")
+
+
+def emit(ctx, seq, ms, kind, clause, impl, what, detail):
+    if len(seq) == 1:
+        c = plain_of(seq[0])
+        if kind == "fail":
+            if detail is None and not ctx.replaying and "column" not in c:
+                return report_single(ctx, c, None, clause, ms[-1])
+            return ctx.fail(c, clause, impl=impl, model=ms[-1], detail=detail)
+        return ctx.disagree(c, impl, ms[-1], clause)
+    text = "%s — on the last of %s casts in one process (%s)" % (clause, "several" if len(seq) > 2 else "two", what)
+    if kind == "fail":
+        return ctx.fail({"seq": seq}, text, impl=impl, model=ms[-1], detail=detail)
+    return ctx.disagree({"seq": seq}, impl, ms[-1], text)
+
+
+def evaluate(ctx, cases):
+    """Every case is cast twice in this process: once, then — after the caller has edited every mutable
+    result of the first round in place — again in another order.  The statement defines the value of the
+    cast from its input alone, so the second answer is judged exactly like the first."""
+    mres = model_results(ctx, cases)
+    H = hist(ctx)
+    outs, quiet, hidx = {}, set(), {}
     for i, c in enumerate(cases):
         out = run_impl(c)
+        outs[i] = out
+        m = mres.get(i)
+        hidx[i] = len(H)
+        H.append((dict(c), m))
         ctx.case(c, True)
         ctx.hit("type:" + c["ty"][0])
         ctx.hit("clause:" + c.get("clause", "totality/class"))
         ctx.hit("outcome:" + out[0])
-        clause = oracle(c, out)
-        if clause is not None:
-            c_min = c
-            if not ctx.replaying:
-                def still(c2):
-                    try:
-                        if c2.get("ty") != c["ty"] or ("expect" in c) != ("expect" in c2) or c2.get("expect") != c.get("expect"):
-                            return False
-                        return _norm(oracle(c2, run_impl(c2))) == _norm(clause)
-                    except Exception:
-                        return False
-                if "expect" not in c:
-                    c_min = shrink(c, still, budget=150)
-            o2 = run_impl(c_min)
-            ctx.fail(c_min, oracle(c_min, o2) or clause, impl=[o2[0], repr(o2[1])[:200]], model=mres.get(i) if c_min is c else None)
-            continue
-        if i in mres:
-            m = mres[i]
+        if m is not None:
             ctx.hit("compared-with-model")
-            if m[0] == "err":
-                if out[0] != "err" or (out[1] != m[1] and not (c["ty"][0] == "ARRAY" and out[0] == "err")):
-                    ctx.disagree(c, [out[0], repr(out[1])[:200]], m, "cast vs Cast.parse")
-            else:
-                if out[0] != "ok":
-                    ctx.disagree(c, [out[0], repr(out[1])[:200]], m, "cast vs Cast.parse")
-                    continue
-                want = [unwire_val(x) for x in m[1]] if c["ty"][0] == "ARRAY" else unwire_val(m[1])
-                if not same(out[1], want):
-                    ctx.disagree(c, [out[0], repr(out[1])[:200]], m, "cast vs Cast.parse")
-                elif c["ty"][0] != "ARRAY" and out[1] is not None and m[2] != m[3]:
-                    raise InfraError("model result class %r differs from the target's %r for %r" % (m[2], m[3], c))
+        v = judge(c, out, m)
+        if v is None:
+            quiet.add(i)
+            if m is not None and m[0] != "err" and c["ty"][0] != "ARRAY" and out[1] is not None and m[2] != m[3]:
+                raise InfraError("model result class %r differs from the target's %r for %r" % (m[2], m[3], c))
+        else:
+            investigate(ctx, c, m, v, [out[0], repr(out[1])[:200]], hidx[i], "an earlier cast in the same process")
+    # ---- second use: edit the results, cast again in another order
+    for i in sorted(quiet):
+        if outs[i][0] == "ok" and mutate_result(outs[i][1]):
+            H[hidx[i]][0]["then"] = "edit"
+            ctx.hit("again:result-edited-in-place")
+    order = sorted(quiet)
+    random.Random(len(cases) * 7919 + ctx.seed).shuffle(order)
+    for i in order:
+        c = cases[i]
+        out2 = run_impl(c)
+        m = mres.get(i)
+        upto = len(H)
+        H.append((dict(c), m))
+        ctx.evaluations += 1
+        ctx.hit("again:second-cast")
+        v = judge(c, out2, m)
+        if v is not None:
+            investigate(ctx, c, m, v, [out2[0], repr(out2[1])[:200]], upto, "a repeated cast, after the caller edited the first result in place")
+
+
+# --------------------------------------------------------------------------- sequences of casts in one process
+
+WORKER = os.path.join(os.path.dirname(os.path.dirname(os.path.abspath(__file__))), "c07_worker.py")
+
+
+def fresh_verdict(seq, ms):
+    """Run the sequence in a new interpreter -> [(index, kind, clause, impl)] of every step judged wrong."""
+    from ..core import _jsonable, REPO
+
+    data = json.dumps(_jsonable({"seq": seq, "ms": ms}))
+    try:
+        p = subprocess.run([sys.executable, WORKER, REPO], input=data, capture_output=True, text=True, timeout=300)
+    except subprocess.TimeoutExpired:
+        raise InfraError("C07 sequence worker timed out")
+    if p.returncode != 0:
+        raise InfraError("C07 sequence worker failed rc=%s: %s" % (p.returncode, p.stderr[-600:]))
+    return [tuple(w) for w in json.loads(p.stdout)["wrong"]]
+
+
+def evaluate_seqs(ctx, seqs):
+    """Sequences of casts run in order in this process; each step is judged like a single cast."""
+    flat, where = [], []
+    for si, seq in enumerate(seqs):
+        for k, step in enumerate(seq):
+            flat.append(step)
+            where.append((si, k))
+    mres = model_results(ctx, flat)
+    ms_of = {}
+    for idx, (si, k) in enumerate(where):
+        ms_of[(si, k)] = mres.get(idx)
+    H = hist(ctx)
+    for si, seq in enumerate(seqs):
+        ctx.hit("sequence")
+        ctx.hit("sequence-length:%d" % len(seq))
+        for k, step in enumerate(seq):
+            out = run_step(step)
+            m = ms_of[(si, k)]
+            upto = len(H)
+            H.append((plain_of(step), m))
+            ctx.case({"seq-step": step, "k": k}, True, key=json.dumps(core_jsonable(seq[: k + 1]), sort_keys=True))
+            ctx.hit("seq-step:" + ("column-default" if "column" in step else step["ty"][0]))
+            if m is not None:
+                ctx.hit("compared-with-model")
+            v = judge(step, out, m)
+            if v is not None:
+                ms = [ms_of[(si, j)] for j in range(k + 1)]
+                pre = [dict(x) for x in seq[:k]] + [plain_of(step)]
+                investigate(ctx, step, m, v, [out[0], repr(out[1])[:200]], upto, seq[0].get("kind", "sequence"), first=(pre, ms))
+                break
+            if after_step(step, out):
+                H[upto][0]["then"] = "edit"
+                ctx.hit("seq:result-edited-in-place")
+
+
+def core_jsonable(x):
+    from ..core import _jsonable
+
+    return _jsonable(x)
 
 
 # --------------------------------------------------------------------------- generators
@@ -652,37 +1020,7 @@ def array_cases(ctx, n):
     rng = ctx.rng
 
     def elems(et):
-        k = rng.choice([0, 1, 2, 3, 5, 9])
-        out = []
-        for _ in range(k):
-            if rng.random() < 0.25:
-                out.append((None, None))
-                continue
-            if et == "INTEGER":
-                v = rng.choice([0, -1, 2**63 - 1, -(2**63), 2**64 - 1, rng.randint(-10**6, 10**6), rng.getrandbits(64)])
-                out.append((v, v))
-            elif et == "DOUBLE":
-                f = gen_float(rng)
-                if f != f or f in (float("inf"), float("-inf")):
-                    f = 0.5
-                out.append((f, f))
-            elif et == "BOOLEAN":
-                b = rng.random() < 0.5
-                out.append((b, b))
-            elif et == "VARCHAR":
-                s = gen_text(rng)
-                out.append((s, s))
-            elif et == "BLOB":
-                s = gen_text(rng)
-                out.append((s, s.encode("utf-8")))
-            elif et == "DATE":
-                y, m, d = rand_dt(rng)[:3]
-                out.append((datetime.date(y, m, d).isoformat(), datetime.date(y, m, d)))
-            elif et == "TIMESTAMP":
-                f = rand_dt(rng)
-                dt = datetime.datetime(*f)
-                out.append((dt.isoformat(), dt.replace(microsecond=0)))
-        return out
+        return array_elems(rng, et, rng.choice([0, 1, 2, 3, 5, 9]))
 
     for _ in range(n):
         et = rng.choice(["INTEGER", "DOUBLE", "BOOLEAN", "VARCHAR", "BLOB", "DATE", "TIMESTAMP"])
@@ -697,6 +1035,23 @@ def array_cases(ctx, n):
             yield {"ty": ["ARRAY", [et]], "val": tag(tuple(e[0] for e in es)), "clause": "array element-wise, nulls kept", "expect": tag(want)}
         if r > 0.9:
             yield {"ty": ["ARRAY", None], "val": tag(tuple(e[0] for e in es))}
+        if 0.3 <= r < 0.6 and es:
+            # each element on its own either already typed or a rendering (text / UTF-8 bytes) of the value:
+            # the first elements say nothing about the later ones
+            def rend(e):
+                if e[1] is None:
+                    return None
+                k = rng.randrange(3)
+                if k == 0 or et in ("VARCHAR", "BLOB") and k == 2:
+                    return e[1]
+                t_ = e[0] if isinstance(e[0], str) else (repr(e[0]) if isinstance(e[0], float) else str(e[0]))
+                return t_ if k == 1 else t_.encode("utf-8")
+            mixed = [rend(e) for e in es]
+            if et == "VARCHAR":
+                mixed = [x.encode("utf-8") if (x is not None and rng.random() < 0.3) else x for x in mixed]
+            first_typed = [es[0][1]] + mixed[1:] if rng.random() < 0.5 else mixed
+            yield {"ty": ["ARRAY", [et]], "val": tag(first_typed if rng.random() < 0.7 else tuple(first_typed)),
+                   "clause": "array element-wise (typed values and renderings mixed), nulls kept", "expect": tag(want)}
     for src in ["5", "null", '{"a":1}', '"abc"', "x", "", "[", "[[1],[2]]", "[1,2", "true", "[1.5]", '["x"]', b"\xff"]:
         for et in (None, ["INTEGER"], ["VARCHAR"], ["DOUBLE"]):
             yield {"ty": ["ARRAY", et], "val": tag(src), "no_model": True}
@@ -722,6 +1077,208 @@ def default_cases(ctx):
         ctx.hit("column-default")
         if got[0] != want[0] or (got[0] == "ok" and not same(got[1], want[1])):
             ctx.fail({"ty": ty, "val": tag(v), "default": True}, "column default is not the cast of the given default", impl=[got[0], repr(got[1])], model=None)
+
+
+def sequence_cases(ctx, n):
+    """Sequences of casts in one process.  The statement gives the value of every cast from its input and
+    options alone, so whatever was cast before — the same rendering (and its result edited by the caller),
+    the same rendering under other options / another type, hash-equal values — must not matter."""
+    import orjson
+
+    rng = ctx.rng
+
+    def again(c, kind):
+        return [dict(c, then="edit", kind=kind), dict(c)]
+
+    for _ in range(n):
+        r = rng.random()
+        if r < 0.22:
+            # use -> edit the result -> use again, arrays from every rendering (text, bytes, list, tuple)
+            et = rng.choice(["INTEGER", "DOUBLE", "BOOLEAN", "VARCHAR", "BLOB", "DATE", "TIMESTAMP"])
+            es = array_elems(rng, et, rng.choice([1, 2, 3, 5]))
+            js = orjson.dumps([e[0] for e in es])
+            want = [e[1] for e in es]
+            src = rng.choice([js, js.decode("utf-8"), [e[1] for e in es], tuple(e[0] for e in es)])
+            typed = rng.random() < 0.8
+            c = {"ty": ["ARRAY", [et] if typed else None], "val": tag(src)}
+            if typed:
+                c.update(clause="JSON array element-wise, nulls kept" if isinstance(src, (str, bytes)) else "array element-wise, nulls kept", expect=tag(want))
+            elif isinstance(src, (str, bytes)):
+                c["no_model"] = True
+            seq = again(c, "use, edit the result, use again")
+            if rng.random() < 0.5:  # the other rendering of the same array in between / afterwards
+                other = js.decode("utf-8") if isinstance(src, bytes) else js
+                c2 = dict(c, val=tag(other))
+                if typed:
+                    c2["clause"] = "JSON array element-wise, nulls kept"
+                elif "no_model" not in c2:
+                    c2["no_model"] = True
+                seq = [seq[0], dict(c2, then="edit"), seq[1], c2]
+            yield seq
+        elif r < 0.4:
+            # one text, many lengths (and both types, both renderings)
+            s = gen_text(rng, rng.choice([3, 6, 12]))
+            ks = [None, 0, 1, 2, 3, max(1, len(s) - 1), len(s), len(s) + 1]
+            rng.shuffle(ks)
+            seq = []
+            for k in ks[: rng.randint(3, 8)]:
+                lim = (lambda x: x) if not k else (lambda x, k=k: x[:k])
+                which = rng.randrange(4)
+                if which == 0:
+                    seq.append(case(["VARCHAR", k], s, "text: longest prefix within the length", lim(s)))
+                elif which == 1:
+                    seq.append(case(["VARCHAR", k], s.encode("utf-8"), "text: longest prefix within the length", lim(s)))
+                elif which == 2:
+                    seq.append(case(["BLOB", k], s.encode("utf-8"), "binary: longest prefix within the length", lim(s.encode("utf-8"))))
+                else:
+                    seq.append(case(["BLOB", k], s, "binary: longest prefix within the length", lim(s.encode("utf-8"))))
+            seq[0]["kind"] = "one text under several lengths"
+            yield seq
+        elif r < 0.6:
+            # one decimal rendering under many (precision, scale): fitting ones are exact, the others only typed
+            s0 = rng.choice([0, 1, 2, 3, 5])
+            nd = rng.randint(1, 9)
+            d = D((rng.randint(0, 1), tuple(int(ch) for ch in str(rng.randrange(10 ** (nd - 1), 10**nd))), -s0))
+            rend = rng.choice([str(d), str(d).encode(), d, pad(rng, str(d))])
+            pss = [(p_, s_) for p_ in (1, 2, 4, 5, 9, 10, 18, 28, 29, 38) for s_ in (0, 1, 2, 3, 5, 9, 21, 28, 29, 38) if s_ <= p_]
+            seq = []
+            for (p_, s_) in rng.sample(pss, rng.randint(3, 7)):
+                if fits(d, p_, s_) and s_ <= 28:
+                    seq.append(case(["DECIMAL", p_, s_], rend, "decimal: exact when it fits", d))
+                else:
+                    seq.append(case(["DECIMAL", p_, s_], rend))
+            if rng.random() < 0.3:
+                seq.append(case(["DECIMAL", None, None], rend, "decimal: exact when it fits", d))
+            seq[0]["kind"] = "one decimal rendering under several (precision, scale)"
+            yield seq
+        elif r < 0.75:
+            # one JSON text under several element types
+            kind = rng.choice(["floats", "ints", "dates", "words"])
+            if kind == "floats":
+                fs = [gen_float(rng) for _ in range(rng.randint(1, 4))]
+                fs = [0.5 if (f != f or f in (float("inf"), float("-inf"))) else f for f in fs]
+                items = [repr(f) for f in fs]
+                exp = {"DOUBLE": fs, "VARCHAR": items, "BLOB": [x.encode() for x in items]}
+            elif kind == "ints":
+                ns = [gen_int(rng) % 10**30 for _ in range(rng.randint(1, 4))]
+                items = [str(k) for k in ns]
+                exp = {"INTEGER": ns, "VARCHAR": items, "BLOB": [x.encode() for x in items]}
+            elif kind == "dates":
+                ds = [datetime.date(*rand_dt(rng)[:3]) for _ in range(rng.randint(1, 3))]
+                items = [x.isoformat() for x in ds]
+                exp = {"DATE": ds, "VARCHAR": items, "BLOB": [x.encode() for x in items], "TIMESTAMP": None}
+            else:
+                items = [rng.choice(["true", "yes", "on", "1", "1.0", "t", "y", "True", "False"]) for _ in range(rng.randint(1, 4))]
+                exp = {"BOOLEAN": [w.upper() in ("TRUE", "YES", "ON", "1", "1.0", "T", "Y") for w in items], "VARCHAR": items, "BLOB": [x.encode() for x in items]}
+            pos = rng.randrange(len(items) + 1)
+            vals = items[:pos] + [None] + items[pos:]
+            txt = orjson.dumps(vals)
+            src = txt if rng.random() < 0.5 else txt.decode("utf-8")
+            ets = list(exp)
+            rng.shuffle(ets)
+            seq = []
+            for et in ets:
+                e = exp[et]
+                c = {"ty": ["ARRAY", [et]], "val": tag(src)}
+                if e is not None:
+                    c.update(clause="JSON array element-wise, nulls kept", expect=tag(e[:pos] + [None] + e[pos:]))
+                if rng.random() < 0.5:
+                    c["then"] = "edit"
+                seq.append(c)
+            seq.append(dict(seq[0]))
+            seq[-1].pop("then", None)
+            seq[0]["kind"] = "one JSON text under several element types"
+            yield seq
+        elif r < 0.9:
+            # one text under several types
+            txt, exp = rng.choice([
+                ("1", [(["BOOLEAN"], True, "documented truthy word"), (["INTEGER"], 1, "integer rendering"), (["VARCHAR", None], "1", "text: longest prefix within the length"),
+                       (["BLOB", None], b"1", "binary: longest prefix within the length"), (["DECIMAL", 5, 2], D("1"), "decimal: exact when it fits"), (["DOUBLE"], None, None)]),
+                ("1.0", [(["BOOLEAN"], True, "documented truthy word"), (["DOUBLE"], 1.0, "float rendering (repr)"), (["VARCHAR", 2], "1.", "text: longest prefix within the length"),
+                         (["BLOB", 1], b"1", "binary: longest prefix within the length"), (["DECIMAL", 5, 2], D("1.0"), "decimal: exact when it fits"), (["INTEGER"], None, None)]),
+                ("2024-02-29", [(["DATE"], datetime.date(2024, 2, 29), "date rendering"), (["VARCHAR", 4], "2024", "text: longest prefix within the length"),
+                                (["BLOB", None], b"2024-02-29", "binary: longest prefix within the length"), (["TIMESTAMP"], None, None), (["BOOLEAN"], None, None)]),
+                ("True", [(["BOOLEAN"], True, "boolean rendering"), (["VARCHAR", None], "True", "text: longest prefix within the length"), (["INTEGER"], None, None), (["DECIMAL", 5, 2], None, None)]),
+                ("[1, 2]", [(["ARRAY", ["INTEGER"]], [1, 2], "JSON array element-wise, nulls kept"), (["VARCHAR", None], "[1, 2]", "text: longest prefix within the length"),
+                            (["ARRAY", ["DOUBLE"]], None, None), (["BLOB", 3], b"[1,", "binary: longest prefix within the length")]),
+            ])
+            exp = list(exp)
+            rng.shuffle(exp)
+            as_bytes = rng.random() < 0.4
+            seq = []
+            for ty, want, clause in exp + exp[:2]:
+                v = txt.encode() if as_bytes else txt
+                c = case(ty, v, clause, want) if clause else case(ty, v)
+                if rng.random() < 0.3:
+                    c["then"] = "edit"
+                seq.append(c)
+            seq[0]["kind"] = "one text under several types"
+            yield seq
+        else:
+            # values that are equal and hash alike (1 == 1.0 == True == Decimal(1); 0 == 0.0 == -0.0 == False)
+            group = rng.choice([[1, 1.0, True, D(1), D("1.0")], [0, 0.0, -0.0, False, D(0), D("-0")]])
+            seq = []
+            for _ in range(rng.randint(3, 8)):
+                v = rng.choice(group)
+                ty = rng.choice([["VARCHAR", None], ["BLOB", None], ["BOOLEAN"], ["INTEGER"], ["DOUBLE"], ["DECIMAL", 5, 2]])
+                seq.append(case(ty, v, "identity on a typed value", v) if (ty[0], type(v)) in (("INTEGER", int), ("DOUBLE", float), ("BOOLEAN", bool), ("DECIMAL", D)) else case(ty, v))
+            seq[0]["kind"] = "equal values of different classes"
+            yield seq
+    # the column-default call site, twice with the same default (schema.py:203-210 casts without the column's options)
+    for col, v, ty, want in [("ARRAY<INTEGER>", "[1, null, 3]", ["ARRAY", None], [1, None, 3]), ("ARRAY<VARCHAR>", b'["a", null]', ["ARRAY", None], ["a", None]),
+                             ("ARRAY<INTEGER>", (1, 2), ["ARRAY", None], [1, 2]), ("INTEGER", "12", ["INTEGER"], 12), ("VARCHAR", "abc", ["VARCHAR", None], "abc")]:
+        c = {"ty": ty, "val": tag(v), "column": col, "clause": "column default is the cast of the given default", "expect": tag(want)}
+        if ty[0] == "ARRAY" and isinstance(v, (str, bytes)):
+            c["no_model"] = True
+        d = {k_: v_ for k_, v_ in c.items() if k_ != "column"}
+        yield [dict(c, then="edit", kind="two columns with the same default"), dict(c), dict(d, then="edit"), dict(c), d]
+
+
+def array_elems(rng, et, k):
+    """k (json value, expected cast) pairs for element type `et`, nulls included."""
+    out = []
+    for _ in range(k):
+        if rng.random() < 0.25:
+            out.append((None, None))
+            continue
+        if et == "INTEGER":
+            v = rng.choice([0, -1, 2**63 - 1, -(2**63), 2**64 - 1, rng.randint(-10**6, 10**6), rng.getrandbits(64)])
+            out.append((v, v))
+        elif et == "DOUBLE":
+            f = gen_float(rng)
+            if f != f or f in (float("inf"), float("-inf")):
+                f = 0.5
+            out.append((f, f))
+        elif et == "BOOLEAN":
+            b = rng.random() < 0.5
+            out.append((b, b))
+        elif et == "VARCHAR":
+            s = gen_text(rng)
+            out.append((s, s))
+        elif et == "BLOB":
+            s = gen_text(rng)
+            out.append((s, s.encode("utf-8")))
+        elif et == "DATE":
+            y, m, d = rand_dt(rng)[:3]
+            out.append((datetime.date(y, m, d).isoformat(), datetime.date(y, m, d)))
+        elif et == "TIMESTAMP":
+            f = rand_dt(rng)
+            dt = datetime.datetime(*f)
+            out.append((dt.isoformat(), dt.replace(microsecond=0)))
+    return out
+
+
+def seq_batches(ctx, it, size=400):
+    buf = []
+    for sq in it:
+        buf.append(sq)
+        if len(buf) >= size:
+            evaluate_seqs(ctx, buf)
+            buf = []
+            if ctx.time_left() < 5:
+                ctx.note("stopped_early", "time budget")
+                return
+    evaluate_seqs(ctx, buf)
 
 
 def batches(ctx, it, size=3000):
@@ -767,6 +1324,7 @@ def run(ctx):
     batches(ctx, temporal_cases(ctx, ctx.scale(400, 5000)))
     batches(ctx, decimal_cases(ctx, grid(ctx), ctx.scale(6, 12)))
     batches(ctx, array_cases(ctx, ctx.scale(800, 10000)))
+    seq_batches(ctx, sequence_cases(ctx, ctx.scale(1200, 15000)))
     ctx.note("exhaustive_scope", "decimal (precision, scale) grid: %s" % ("all 780 pairs 0<=s<=p<=38" if ctx.tier == "thorough" else "16 boundary pairs + 60 sampled"))
 
 
@@ -775,10 +1333,14 @@ def intensify(ctx):
     batches(ctx, int_cases(ctx, 5000))
     batches(ctx, text_cases(ctx, 3000))
     batches(ctx, array_cases(ctx, 3000))
+    seq_batches(ctx, sequence_cases(ctx, 3000))
 
 
 def replay(ctx, case):
     if case.get("default"):
         default_cases(ctx)
+        return
+    if "seq" in case:
+        evaluate_seqs(ctx, [case["seq"]])
         return
     evaluate(ctx, [case])
